@@ -212,6 +212,49 @@ theorem c07h_load_gca (cfg : Cfg) (V : Verify) (sgn : Bytes → Bytes) (d : Disk
 
 
 
+/-- A start only succeeds on a log of authorizations every one of which carries a signature of the GCA key
+the server ends up with: a record that does not verify (a flipped bit, a foreign record) makes the start
+fail - it is never skipped. -/
+theorem c07_start_verifies_log (cfg : Cfg) (V : Verify) (sgn : Bytes → Bytes) (d : Disk) (tempKey fresh : Key)
+    (now : Nat) (s' : State) (h : load cfg V sgn d tempKey fresh now = some s') :
+    ∀ a ∈ d.auths, V s'.gcaKey (Auth.signingBytes a) a.sig = true := by
+  unfold load at h
+  split at h
+  rename_i x srvPub d' heq
+  have hd : d'.auths = d.auths := by
+    split at heq <;> (cases heq; rfl)
+  clear heq
+  split at h
+  · simp at h
+  · dsimp only at h
+    split at h
+    · simp at h
+    · rename_i gk gcaKey avail hgk
+      split at h
+      · simp at h
+      · rename_i hany
+        split at h
+        · simp at h
+        · rename_i s3 h3
+          split at h
+          · rename_i s4 h4
+            have e1 := c07h_same_foldl_replayAuth cfg d'.auths
+              { gcaKey := gcaKey, gcaAvail := avail, tempKey := tempKey, srvPub := srvPub, disk := d' }
+            have e3 := c07h_same_replayReports cfg V _ _ _ h3
+            have e4 := c07h_same_catchUp sgn now (now / week + 2) s3
+            rw [h4] at e4
+            simp at h; subst h
+            have hk : s4.gcaKey = gcaKey := by
+              rw [e4.1, e3.1]; exact e1.1
+            intro a ha
+            rw [hk]
+            rw [← hd] at ha
+            have := hany
+            simp only [List.any_eq_true, not_exists, not_and, Bool.not_eq_true'] at this
+            have h2 := this a ha
+            simpa using h2
+          · simp at h
+
 /-- The filter predicate of `c07_once`: an accepted registration. -/
 def c07h_isAcc : Op × Out → Bool := fun p => match p with | (.register _ _, .ok) => true | _ => false
 
